@@ -6,6 +6,7 @@
 use super::kdev::*;
 use super::kscript::*;
 use super::spec::*;
+use super::vk::stub_is_ascii;
 use crate::ieee488::common::*;
 use crate::ieee488::prelude::*;
 use crate::scpi1999::prelude::*;
@@ -76,6 +77,7 @@ macro_rules! next_case {
 #[kani::proof]
 #[kani::unwind(20)]
 #[kani::stub(<scpi::parser::tokenizer::Tokenizer as core::iter::Iterator>::next, stub_next)]
+#[kani::stub(<[u8]>::is_ascii, stub_is_ascii)]
 pub fn syst_err_next() {
     next_case!(0, false, b"0,\"No error\"");
     next_case!(1, false, b"1,\"V\"");
@@ -117,6 +119,7 @@ macro_rules! all_case {
 #[kani::proof]
 #[kani::unwind(40)]
 #[kani::stub(<scpi::parser::tokenizer::Tokenizer as core::iter::Iterator>::next, stub_next)]
+#[kani::stub(<[u8]>::is_ascii, stub_is_ascii)]
 pub fn syst_err_all() {
     all_case!(0, false, b"0,\"No error\"");
     all_case!(1, true, b"1,\"V;x\"");
